@@ -18,8 +18,11 @@ import (
 )
 
 // templates over the segment alphabet {a, b, {x}, {y}} with up to n segments (no variable twice)
-func c09Templates(n int) []string {
-	segs := []string{"a", "b", "{x}", "{y}"}
+func c09Templates(n int, full bool) []string {
+	segs := []string{"a", "b", "{x}", "w{x}", "wa"}
+	if full {
+		segs = []string{"a", "b", "{x}", "{y}", "w{x}", "wa"}
+	}
 	var out []string
 	var rec func(prefix []string)
 	rec = func(prefix []string) {
@@ -32,7 +35,7 @@ func c09Templates(n int) []string {
 		for _, s := range segs {
 			dup := false
 			for _, p := range prefix {
-				if p == s && strings.HasPrefix(s, "{") {
+				if strings.Contains(p, "{x}") && strings.Contains(s, "{x}") || strings.Contains(p, "{y}") && strings.Contains(s, "{y}") {
 					dup = true
 				}
 			}
@@ -47,7 +50,7 @@ func c09Templates(n int) []string {
 
 // request paths: every path of up to n segments over {a,b,c} (thorough: also a.b), a few dotted ones, and (relaxed) paths with empty segments
 func c09Paths(n int, dotted bool) (strict []string, relaxed []string) {
-	segs := []string{"a", "b", "c"}
+	segs := []string{"a", "b", "c", "wa", "w1"}
 	if dotted {
 		segs = append(segs, "a.b")
 	}
@@ -122,7 +125,7 @@ func init() {
 	var tplQuick, tplThorough, pathsQuick, pathsThorough, relaxedPaths []string
 	core.Register(&core.Check{
 		ID: "C09",
-		Rule: "documents: every set of 1-2 (quick; thorough 1-3) path templates over segments {a, b, {x}, {y}} of up to 2 (thorough 3) segments that passes validation, each template with methods {GET}, {POST} or {GET,POST}, x servers {none, /v1, http://h.example/v1, https://{env}.example/{base} with enum and defaults, two servers}; " +
+		Rule: "documents: every set of 1-2 (quick; thorough 1-3) path templates over segments {a, b, {x}, {y}, w{x} (variable with a literal prefix inside the segment), wa} of up to 2 (thorough 3) segments that passes validation, each template with methods {GET}, {POST} or {GET,POST}, x servers {none, /v1, http://h.example/v1, https://{env}.example/{base} with enum and defaults, two servers}; " +
 			"requests: every path of up to 2 segments over {a,b,c} plus dotted and three 3-segment paths (thorough: up to 4 segments over {a,b,c,a.b}), and five paths with empty segments / trailing slashes (relaxed: only no-panic and operation identity) under every matching and non-matching server prefix x {GET, POST, PUT}; both routers (legacy under both map orders). Invariants: (i) a returned route carries the operation declared for (route.Path, method) and its parameters reproduce the path; " +
 			"(ii) a path that fills a declared template with a declared method under a declared server is routed; (iii) a literal template equal to the path wins; (iv) no template or no server => a RouteError and no route. non-trivial = the request path matches at least one template of the document",
 		Assumptions: []string{
@@ -135,7 +138,7 @@ func init() {
 		ShrinkVectors: true,
 		DevBound:      func(string) int { return 1 },
 		Init: func(r *core.Run) {
-			tplQuick, tplThorough = c09Templates(2), c09Templates(3)
+			tplQuick, tplThorough = c09Templates(2, false), c09Templates(3, true)
 			pathsQuick, relaxedPaths = c09Paths(2, false)
 			pathsQuick = append(pathsQuick, "/a/b/c", "/a/a/a", "/c/a/b")
 			pathsThorough, _ = c09Paths(4, true)
@@ -146,7 +149,7 @@ func init() {
 				tpls, paths, maxSet = tplThorough, pathsThorough, 3
 			}
 			if tplQuick == nil {
-				tplQuick, tplThorough = c09Templates(2), c09Templates(3)
+				tplQuick, tplThorough = c09Templates(2, false), c09Templates(3, true)
 				pathsQuick, relaxedPaths = c09Paths(2, false)
 				pathsQuick = append(pathsQuick, "/a/b/c", "/a/a/a", "/c/a/b")
 				pathsThorough, _ = c09Paths(4, true)
@@ -168,7 +171,11 @@ func init() {
 				}
 				k := start + x.Choose(len(tpls)-start)
 				set = append(set, tpls[k])
-				methods = append(methods, explore.Pick(x, c09MethodSets))
+				if r.Tier == "thorough" {
+					methods = append(methods, explore.Pick(x, c09MethodSets))
+				} else {
+					methods = append(methods, explore.Pick(x, c09MethodSets[1:])) // quick tier: {POST} and {GET,POST}
+				}
 				start = k + 1
 			}
 			srv := explore.Pick(x, c09Servers)
